@@ -54,7 +54,13 @@ def run(rep):
     quick = rep.tier == "quick"
     impl = os.path.join(rep.info["bin"], "implrun")
     model = os.path.join(vlib.BUILD, "ocaml", "modelrun")
-    nopar = os.path.join(vlib.BUILD, "cargo-nopar", "debug", "implrun")
+    # the non-parallel build of the harness is rebuilt from /repo's current working tree on every run (cargo decides what changed)
+    try:
+        with vlib.Lock():
+            nopar = os.path.join(vlib.build_harness(parallel=False), "implrun")
+    except vlib.BuildError as ex:
+        rep.notes.append("non-parallel harness build failed: " + str(ex)[-300:])
+        nopar = os.path.join(vlib.BUILD, "cargo-nopar", "debug", "no-such-binary")
     rep.rule = ("(a) the real Evaluator under every interleaving of Read/Publish events of <= 3 trials (90 schedules per trial set) and "
                 "random interleavings of up to 8 trials, on tie-prone inputs; observed order replayed on the model LTS; "
                 "(b) optimize_from_memory under pool sizes 1,2,3,5,16, nested parallel iterator, and the non-parallel build. "
@@ -207,6 +213,32 @@ def run(rep):
     for cid, m in base.meta.items():
         if ref.get(cid, "").startswith("ok ") and ref[cid][3:] != m["png"].hex():
             rep.nontriv(("e2e", cid))
+    # parallel build vs non-parallel build on many tiny few-colour images (exact size ties between candidates are common there and
+    # the two collectors must resolve them by the same fixed key, not by evaluation order)
+    if os.path.exists(nopar):
+        ties = vlib.Cases()
+        for k in range(120 if quick else 1500):
+            ncol = rng.choice([2, 3, 4, 5, 9, 16, 17, 30])
+            w, h = rng.choice([(5, 15), (4, 9), (7, 5), (3, 10), (6, 6), (12, 12), (24, 8), (16, 16)])
+            ct = rng.choice([3, 3, 3, 0, 2])
+            if ct == 3:
+                pal = [tuple(rng.randrange(256) for _ in range(3)) + (255,) for _ in range(ncol + rng.choice([0, 1]))]
+                idx = [[(rng.randrange(ncol),) for x in range(w)] for y in range(h)]
+                tok = pg.img_token(w, h, 3, 8, False, pal, pg.pack_image(idx, w, h, 3, 8, False))
+            else:
+                tok, _ = imggen.gen(rng, ct, 8, w, h, False, "fewcolors", "none", ncol)
+            png = e2e.png_from_token(rng, tok, simple=True)
+            o = f"preset={rng.choice([0, 1, 2, 2, 4])}"
+            ties.add(f"opt {o} {png.hex()}", o=o, png=png)
+        ra = vlib.run_cases(impl, ties.lines, shards=8)
+        rb = vlib.run_cases(nopar, ties.lines, shards=8)
+        rep.evaluations += 2 * len(ties.lines)
+        for cid, m in ties.meta.items():
+            if ra.get(cid) != rb.get(cid):
+                rep.violation("C06:output-differs", "output bytes differ between the parallel and the non-parallel build (tiny few-colour image)",
+                              {"cases": [m["cmd"]], "variant": "non-parallel build", "default": vlib.short(ra.get(cid), 300), "other": vlib.short(rb.get(cid), 300)})
+            else:
+                rep.count("builds-agree")
     rep.extra["variants"] = list(variants)
     rep.assumptions.append("interleavings inside libdeflate/zopfli/rayon finer than the two hook points per trial are not forced (atomics are SeqCst; each hook-delimited step touches shared state through get / fetch_min / send only)")
 
